@@ -352,7 +352,16 @@ func runHistory(t *testing.T, r *ev.Run, hi int, hist []op) (string, int) {
 	}
 	h.reg = prometheus.NewRegistry()
 	_ = h.reg.Register(h.exp)
-	h.rt, err = mrt.New(h.lines, &h.wg, "", h.store)
+	// options the binary's flags turn on and tests rarely do: every third
+	// history runs with -omit_metric_source, every fourth with runtime-error logging
+	var ropts []mrt.Option
+	if hi%3 == 1 {
+		ropts = append(ropts, mrt.OmitMetricSource())
+	}
+	if hi%4 == 2 {
+		ropts = append(ropts, mrt.LogRuntimeErrors())
+	}
+	h.rt, err = mrt.New(h.lines, &h.wg, "", h.store, ropts...)
 	if err != nil {
 		t.Fatal(err)
 	}
